@@ -856,8 +856,9 @@ impl SubRule {
                     self.variables.borrow_mut().clear();
                     match self.insertion_match(&res_word, pos)? {
                         Some(ins) => {                                    
-                            if self.insertion_match_exceptions(word, ins)? {
-                                pos.increment(word);
+                            // `ins` and `pos` are positions in the word as it is now, not as it was before the first insertion
+                            if self.insertion_match_exceptions(&res_word, ins)? {
+                                pos.increment(&res_word);
                                 continue;
                             }
                             let (res, next_pos) = self.insert(&res_word, ins, is_context_after)?;
